@@ -177,11 +177,17 @@ class Gen:
         """returns (bytes, wants_response_encryption)"""
         c = self.C[ccname]
         can_enc = self.first_param_is_tpm2b(c["cp"])
-        nsess = self.ch.choose(max_sessions + 1, "sessions:" + path)
+        nsess = self.ch.choose(max_sessions + 2, "sessions:" + path)
+        empty_area = nsess == max_sessions + 1  # last alternative: the sessions tag with an empty authorization area
+        if empty_area:
+            nsess = 0
         saved, self.ev = self.ev, []
         body = self.fixed("TPM_CC", path + ".commandCode", c["cc"])
         body += self.struct(c["ch"], path + ".handles")
         dec = encr = False
+        if empty_area:
+            body += self.fixed("UINT32", path + ".authSize", 0)
+            self.emit(path + ".authorizationArea", "list[TPMS_AUTH_COMMAND]", "...")
         if nsess:
             sev, self.ev = self.ev, []
             area = b""
@@ -197,7 +203,7 @@ class Gen:
         body += self.struct(c["cp"], path + ".parameters", enc=dec)
         bev, self.ev = self.ev, saved
         self.emit(path, "Command", "...")
-        out = self.fixed("TPMI_ST_COMMAND_TAG", path + ".tag", ST_SESSIONS if nsess else ST_NO_SESSIONS)
+        out = self.fixed("TPMI_ST_COMMAND_TAG", path + ".tag", ST_SESSIONS if (nsess or empty_area) else ST_NO_SESSIONS)
         out += self.fixed("UINT32", path + ".commandSize", len(body) + 6)
         self.ev += bev
         return out + body, encr
@@ -216,20 +222,24 @@ class Gen:
         body = self.fixed("TPM_RC", path + ".responseCode", rc)
         tag = ST_NO_SESSIONS
         if rc == 0:
+            empty_area = False
             if enc:
                 nsess = 1 + self.ch.choose(max_sessions, "sessions:" + path)
             else:
-                nsess = self.ch.choose(max_sessions + 1, "sessions:" + path)
+                nsess = self.ch.choose(max_sessions + 2, "sessions:" + path)
+                empty_area = nsess == max_sessions + 1  # the sessions tag, parameterSize, and no session at all
+                if empty_area:
+                    nsess = 0
             body += self.struct(c["rh"], path + ".handles")
             pev, self.ev = self.ev, []
             params = self.struct(c["rp"], path + ".parameters", enc=enc)
             parev, self.ev = self.ev, pev
-            if nsess:
+            if nsess or empty_area:
                 tag = ST_SESSIONS
                 body += self.fixed("UINT32", path + ".parameterSize", len(params))
             body += params
             self.ev += parev
-            if nsess:
+            if nsess or empty_area:
                 self.emit(path + ".authorizationArea", "list[TPMS_AUTH_RESPONSE]", "...")
                 for i in range(nsess):
                     if enc and i == 0:
